@@ -15,10 +15,10 @@ Regression witnesses of repaired defects (`C11_pinned_…_fails_at`): at the pin
 for a day longer than 16 h never ended for the day lengths of latitude 45° (F6).
 Still reachable, stated on a concrete witness: a run that ends in log.Fatal/panic (modelled as
 `run l = none`) ends the whole batch before the other lines are finished
-(`C11_fatal_line_ends_batch_fails_at`) — after the repairs of the texture and rotation-date classes
-this remains reachable through tillage ≥ 45 cm (F12, nitro.go:255, until its repair lands) and
-through the log.Fatal sites for malformed numbers / missing files, which are outside the property's
-list of reported-error classes (observed by the C11 check, class malformed-number-in-soil-file).
+(`C11_fatal_line_ends_batch_fails_at`) — after the repairs of the texture, rotation-date and
+deep-tillage classes this remains reachable only through the log.Fatal sites for malformed numbers /
+missing required files, which are outside the property's list of reported-error classes (observed
+by the C11 check, class malformed-number-in-soil-file).
 Process-level effects of log.Fatal / panic, real time-outs and real interleavings are observed only.
 -/
 import HermesProofs.Dispatch
